@@ -1,12 +1,14 @@
 (* wave 7 requests of C12 / C13 / C18:
    1211  the DFXP document as written (model/DfxpClean.v: region table, body tree with region attributes, cleanup_regions)
    1213  the cue settings WebVTTReader keeps from a timing line (model/VttSettings.v) and the line the writer prints for them
+   1214  tts:textAlign / tts:displayAlign at string level (model/DfxpAlign.v): what the reader makes of two attribute values
+   1215  the names the writer prints for the alignment members, and the two strings written for an alignment
    1320  DFXPWriter with inline positioning: the layout each div / p / span carries inline (dfxp_choice over the
          transformed set)
    1820  to_xml_attribute of Point / Stretch / Padding and from_xml_attribute of the result *)
 From Coq Require Import List ZArith QArith Bool.
 From PV Require Import lib.Sx lib.Str lib.Result.
-From PV Require Import model.Geometry model.Positioning model.DfxpTree model.DfxpClean model.TimeRead model.VttSettings spec.SpecGeom spec.SpecPos spec.SpecPos7.
+From PV Require Import model.Geometry model.Positioning model.DfxpTree model.DfxpClean model.TimeRead model.VttSettings model.DfxpAlign spec.SpecGeom spec.SpecPos spec.SpecPos7.
 From PV Require Import extract.OrCommon extract.OrGeom extract.OrPos.
 Import ListNotations.
 Open Scope Z_scope.
@@ -42,6 +44,15 @@ Definition req7 (code : Z) (arg : sx) : sx :=
           SL [SI 2; SS st; match vtt_cue_settings (vtt_timing_text (lit "00:01.000") (lit "00:02.000") (VRaw st)) with
                            | Some (Some st') => SS st' | _ => SI 0 end]
       end
+  | 1214, SL [ta; da] =>
+      match sx_opt sx_str ta, sx_opt sx_str da with
+      | Some ta, Some da => of_opt of_alignment (read_alignment ta da) | _, _ => bad end
+  | 1215, a =>
+      match sx_opt sx_alignment a with
+      | Some a => SL [of_list SS (map halign_name [HLeft; HCenter; HRight; HStart; HEnd]);
+                      of_list SS (map valign_name [VTop; VCenter; VBottom]);
+                      of_opt SS (fst (written_alignment a)); of_opt SS (snd (written_alignment a))]
+      | None => bad end
   | 1320, SL [c; s] =>
       match sx_cfg c, sx_nset s with
       | Some c, Some s => of_result (fun s' => of_list (of_opt of_layout) (inline_layouts s')) (dfxp_transform_inline c s)
@@ -60,6 +71,6 @@ Definition req7 (code : Z) (arg : sx) : sx :=
 
 Definition dispatch (code : Z) (arg : sx) : option sx :=
   match code with
-  | 1211 | 1213 | 1320 | 1820 => Some (req7 code arg)
+  | 1211 | 1213 | 1214 | 1215 | 1320 | 1820 => Some (req7 code arg)
   | _ => None
   end.
